@@ -1,5 +1,6 @@
 import RedactVerif.Props.L2
 import RedactVerif.Props.FactsClassify
+import RedactVerif.Proofs.PrinterNI
 /-
 C05 — exactly the unsafe arguments are enveloped; declared-safe data stays visible.
 
@@ -15,11 +16,17 @@ What is proved (for the whole modelled universe, every oracle, every fuel):
 * registered / SafeValue operands are printed under a safe override
   (`declared_safe_bracket`).
 
-FULL STATEMENT (not yet proved): `dropEnv (output) = plain rendering with the
-unsafe leaves blanked`. It needs the buffer-level equalities of C09 for
-arbitrary payloads; until then that part rests on the real-code oracles
-(P-envelopes: leaf extents and sentinel positions) and on the byte-exact
-correspondence of the printer model (P-model).
+* the text outside envelopes does not depend on the arguments that are not
+  declared safe (`sprintf_safe_text_independent`, `sprint_safe_text_independent`):
+  for two runs as in C02 (renderings equal on declared-safe leaves, same shape
+  elsewhere) `dropEnv` of the two outputs is the same byte string — nothing of
+  an undeclared argument, not even its padding or quotes, is outside.
+
+FULL STATEMENT (partly proved): `dropEnv (output) = plain rendering with the
+unsafe leaves blanked`. The independence half is the theorem above; that the
+common value is what fmt prints for the safe parts rests on the byte-exact
+correspondence of the printer model (P-model) and the real-code oracles
+(P-envelopes: leaf extents and sentinel positions).
 -/
 namespace Redact
 
@@ -82,6 +89,31 @@ theorem declared_safe_bracket (env : Env) (n : Nat) (p : PP) (v : Val) (verb : N
   | safeW w => exact absurd rfl (hw w).1
   | unsafeW w => exact absurd rfl (hw w).2
   | _ => simp [printArg, hs, hr]
+
+/-- What is visible outside envelopes after a print call. -/
+def Res.safeText : Res → Option (List Byte)
+  | .ok p => some (dropEnv p.buf.redactableBytes)
+  | _ => none
+
+theorem safeText_eq_of_RR {ov0 : Override} {r1 r2 : Res} (h : RR ov0 r1 r2) : r1.safeText = r2.safeText := by
+  cases r1 <;> cases r2 <;> simp only [RR] at h <;> try (exact h.elim)
+  · simp only [Res.safeText]
+    rw [dropEnv_eq_of_brel _ _ h.1.b]
+  all_goals rfl
+
+/-- **C05, independence half.** The text outside envelopes is the same whatever the
+arguments not declared safe render as (same shape). -/
+theorem sprintf_safe_text_independent (pub : Nat → Prop) (env1 env2 : Env) (he : EnvRel pub env1 env2)
+    (format : List Byte) (args : List Val) (hok : ListOk args) (hs : ∀ v ∈ args, SecV pub v) :
+    (sprintf env1 format args).safeText = (sprintf env2 format args).safeText :=
+  safeText_eq_of_RR ((rspec_all he defaultFuel).doPrintf .no _ _ format args
+    ⟨brel_init, by show Buffer.init.mode ≠ .raw; decide, rfl, rfl, rfl, rfl, rfl, rfl, rfl, rfl⟩ rfl hok hs)
+
+theorem sprint_safe_text_independent (pub : Nat → Prop) (env1 env2 : Env) (he : EnvRel pub env1 env2)
+    (args : List Val) (hok : ListOk args) (hs : ∀ v ∈ args, SecV pub v) :
+    (sprint env1 args).safeText = (sprint env2 args).safeText :=
+  safeText_eq_of_RR ((rspec_all he defaultFuel).doPrint .no _ _ args
+    ⟨brel_init, by show Buffer.init.mode ≠ .raw; decide, rfl, rfl, rfl, rfl, rfl, rfl, rfl, rfl⟩ rfl hok hs)
 
 /-! Non-vacuity -/
 example : Pre newPP := pre_newPP
